@@ -229,6 +229,10 @@ func checkC08(p *Prog, r *Report) {
 		}
 	}
 
+	// ---- R8.15 the abort reaches the socket -------------------------------------------------------------------
+	r.Rule("R8.15", "The abort that Close issues for a write blocked on a shared UDP mux socket is forwarded unconditionally: the handle forwards to the connection it wraps whenever that supports aborting, and the muxed connection forwards to the mux on every path — no bookkeeping of its own decides that there is nothing to abort (rule shared with C13 R13.4).", 2)
+	checkAbortForwarding(p, r)
+
 	// ---- R8.3 close sequence ------------------------------------------------------------------
 	r.Rule("R8.3", "Agent.close marks the loop closed, then aborts the I/O of started candidates (as the loop's pre-stop action), then waits for the loop; the abort closes closeCh, expires deadlines, aborts a blocked shared write and closes the conn exactly once; the loop's close callback cancels and awaits gathering, drops mux entries, deletes candidates, releases starters and the reader buffer, closes mDNS and reports Closed.", 4)
 	closers := p.agentClosers()
